@@ -156,6 +156,15 @@ class VTask(Task):
                 raise AssertionError(f"objective called outside the search space: {pr} {x!r}")
         if OBJ['args'] is not None:
             OBJ['args'].append([list(e) if isinstance(e, (list, np.ndarray)) else e for e in x])
+        if d.get('obj') == 'decoded':
+            # an objective that works on the DECODED solution (labels / choices), as the combinatorial examples do
+            dec = self.transform_solution(x)
+            v = 0.0
+            for name in sorted(dec):
+                val = dec[name]
+                for j, e in enumerate(val if isinstance(val, (list, tuple)) else [val]):
+                    v += (j + 1) ** 2 * (sum(map(ord, e)) % 97 if isinstance(e, str) else float(e))
+            return v
         v = pure_objective(d, x)
         if d.get('scribble'):
             # user code is free to edit the list it is handed: Task.solve passes a private, freshly corrected copy
@@ -236,6 +245,8 @@ def _vars(proto):
                 BinaryVariable(name='b', n_vars=2)]
     if proto == 'perm4':
         return [PermutationVariable(name='p', items=[3, 1, 4, 2])]
+    if proto == 'perm4s':   # string items: decoding goes through the label table of the variable
+        return [PermutationVariable(name='p', items=['delta', 'alpha', 'charlie', 'bravo'])]
     if proto == 'perm4c':
         return [PermutationVariable(name='p', items=['a', 'b', 'c', 'd']), CV(name='a', lower_bound=-3, upper_bound=4)]
     raise KeyError(proto)
@@ -243,6 +254,7 @@ def _vars(proto):
 
 CONTINUOUS = ['cont3z', 'cont3s', 'scales4', 'far2', 'cont2s', 'cont1', 'cm1', 'cont5', 'mo2']
 INTEGER = ['disc2', 'dm2', 'dm3', 'bin4', 'mixed3', 'perm4', 'perm4c']
+EXTRA_PROTOS = ['perm4s']     # used by dedicated checks only (C07)
 ALL_PROTOS = CONTINUOUS + INTEGER
 
 
@@ -260,6 +272,12 @@ def make_task(proto, minmax='min', obj='quad', neg=False, seed=None, weights=Non
 
 def user_cost(task, position):
     """Re-evaluate the un-instrumented objective at a reported position (user's sign, weights applied)."""
+    if task.data.get('obj') == 'decoded':
+        saved = (OBJ['calls'], list(OBJ['bad']), OBJ['args'])
+        try:
+            return task.objective_function(position)
+        finally:
+            OBJ['calls'], OBJ['bad'], OBJ['args'] = saved
     v = pure_objective(task.data, position)
     if task.objective_weights is not None:
         return float(sum(w * c for w, c in zip(task.objective_weights, v)))
